@@ -71,6 +71,9 @@ seq_t dtw_distance{{ suffix }}{{ suffix2 }}(seq_t *s1, idx_t l1,
         {%- if "euclidean" == inner_dist %}
         {%- else %}
         max_dist = pow(max_dist, 2);
+        // The sqrt/pow round trip can make the bound an ulp smaller than the cost of
+        // the path it was computed from
+        max_dist *= (1 + 1e-14);
         {%- endif %}
     } else if (max_dist == 0) {
         max_dist = INFINITY;
